@@ -19,6 +19,10 @@ const prettyPrintValue = (it: unknown): string => {
   if (typeof it === "object") {
     return `Object`;
   }
+  if (typeof it === "bigint") {
+    // JSON.stringify throws on bigint
+    return `${it}n`;
+  }
   return JSON.stringify(it);
 };
 
